@@ -442,7 +442,7 @@ def meta_trigger_kind(ds, st, minority, major_canon=None, minor_canons=()):
     """limit/offset on grouped queries (only compared across executions): name the known defect whose trigger is present."""
     if M.is_agg(st) and st["w"] and major_canon is not None:
         major_clean = not M.rows_not_in_unlimited_answer(_uncanon(major_canon), ds, st)
-        partly_in_memtable = all(x[0] in ("late", "seq_mem") for x in minority)
+        partly_in_memtable = all(x[0] not in ("memory", "flushed") for x in minority)   # several sources per series
         if major_clean and any(M.rows_not_in_unlimited_answer(_uncanon(c), ds, st) for c in minor_canons) and \
                 (partly_in_memtable or all(M.rows_not_in_unlimited_answer(_uncanon(c), ds, st) for c in minor_canons)):
             return K_GLIMIT        # some execution returns a row that is no row of the unlimited answer (a bucket misses points)
